@@ -1274,6 +1274,9 @@ pub fn cases(tier: Tier) -> Vec<Case> {
         }
         // an INTEGER value reference as a non-leading arc (X.680 32.3: DefinedValue as ObjIdComponent)
         add("oid", "OBJECT IDENTIFIER", "six INTEGER ::= 6", "{ 1 3 six 1 }".into(), Val::Oid(vec![1, 3, 6, 1]), "integer-value-reference-arc".into());
+        // name(number) arcs keep their number whatever values of that name exist (the name is only a label)
+        add("oid", "OBJECT IDENTIFIER", "sub INTEGER ::= 1\nversion INTEGER ::= 9", "{ iso standard 8571 sub(0) version(2) }".into(), Val::Oid(vec![1, 0, 8571, 0, 2]), "name(number)-with-value-of-that-name".into());
+        add("oid", "OBJECT IDENTIFIER", "sub OBJECT IDENTIFIER ::= { 2 5 }", "{ 1 3 sub(7) 4 }".into(), Val::Oid(vec![1, 3, 7, 4]), "name(number)-with-oid-value-of-that-name".into());
         // ---- CHOICE / SEQUENCE / SEQUENCE OF
         let cp = "Cho ::= CHOICE { n INTEGER, b BOOLEAN, c Cho2 }\nCho2 ::= CHOICE { z NULL, m INTEGER (0..9) }\nSq ::= SEQUENCE { p INTEGER, q BOOLEAN, r Cho2 }\nLst ::= SEQUENCE OF INTEGER\nLstB ::= SEQUENCE OF BOOLEAN";
         add("choice", "Cho", cp, "n:5".into(), Val::Choice("n".into(), Box::new(Val::Int("5".into()))), "depth=1".into());
